@@ -109,6 +109,16 @@ def escape : PyStr → List Piece
   | [] => []
   | c :: s => escapeCp c ++ escape s
 
+/-- `svg_escape(colour)` as the string put into an attribute value -/
+def escAttr (s : PyStr) : PyStr := render (escape s)
+
+/-- a string read back from a numpy `str` array: at most `k` code points (dtype `U<k>`), trailing NULs dropped -/
+def npU (k : Option Nat) (s : PyStr) : PyStr :=
+  let t := match k with
+    | some k => s.take k
+    | none => s
+  (t.reverse.dropWhile (· == 0)).reverse
+
 /-! ### the sanitisers of the pinned tree (before the repair of F15), kept for the negative results -/
 
 /-- `svg_text` before the repair: `&`, `<`, `>` replaced by a blank, everything else kept -/
